@@ -17,8 +17,13 @@ import numpy as np
 from . import common
 
 PROP = "C16"
-LEAN_MODULES = ["MiciVerif.Props.C16"]
+LEAN_MODULES = ["MiciVerif.Props.C16", "MiciVerif.Props.C16S"]
+# Generated/StagersSrc.lean: stagers.py translated to Lean on every run; Props/C16S.lean proves
+# generated = model (src_*_eq_model, src_init_validates) and transports the C16 theorems
+GENERATED = ["pysrc"]
 LEAN_EXTRA = ["MiciVerif.Model.Stagers", "MiciVerif.Proto"]
+# (B5) stage loop of sample_chains: Generated/SamplerSkeleton.lean vs Model/SamplerSkeleton.lean, Props/C16K.lean
+LEAN_MODULES, GENERATED = [*LEAN_MODULES, "MiciVerif.Props.C16K"], [*GENERATED, "sampler_skeleton"]
 
 
 class _Timeout(Exception):
@@ -186,7 +191,12 @@ def expected_events(adapting, n_chain):
 
 
 def run(ctx: common.Ctx):
+    from .c20 import _n, src_obligation_status
+
     rng = common.rng_for(ctx)
+    # a broken src_* obligation (stagers.py no longer translates to the model) escalates the
+    # stage-table search (tripled budgets) plus targeted boundary / invalid settings
+    src_broken = src_obligation_status(ctx, "MiciVerif.Props.C16S")
     ctx.rule = (
         "stage tables: exhaustive over n_warm range x window configs x dyadic multipliers x n_main in {0,7} "
         "x trace_warm_up; non-trivial = table with >= 2 slow windows or a zero-length stage. "
@@ -199,7 +209,7 @@ def run(ctx: common.Ctx):
     ]
     configs = [(25, 75, 50), (1, 0, 0), (3, 2, 1), (10, 5, 5), (100, 150, 50), (7, 0, 3)]
     mults = [Fraction(2), Fraction(1), Fraction(3, 2), Fraction(5, 2), Fraction(3)]
-    n_max = ctx.n(700, 3000)
+    n_max = _n(ctx, 700, 3000)
     reqs, metas = [], []
     for (a, b, c) in configs:
         for m in mults:
@@ -214,7 +224,7 @@ def run(ctx: common.Ctx):
                 reqs.append(f"warm {n_warm} {n_main} {int(t)}")
                 metas.append(("warm", None, n_warm, n_main, t))
     # random large values
-    for _ in range(ctx.n(200, 2000)):
+    for _ in range(_n(ctx, 200, 2000)):
         a, b, c = (int(x) for x in rng.integers(1, 400, 3))
         b -= 1
         c -= 1
@@ -222,6 +232,16 @@ def run(ctx: common.Ctx):
         n_warm = int(rng.integers(0, 200000))
         reqs.append(f"win {a} {b} {c} {m.numerator}/{m.denominator} {n_warm} 5 0")
         metas.append(("win", (a, b, c, m), n_warm, 5, False))
+    if src_broken:
+        # targeted: the switch between the settings and the fallback sizes, tiny warm-up counts
+        for _ in range(1500):
+            a, b, c = (int(x) for x in rng.integers(1, 60, 3))
+            b -= 1
+            c -= 1
+            m = mults[int(rng.integers(len(mults)))]
+            for n_warm in {max(0, a + b + c + d) for d in (-2, -1, 0, 1, 2)} | {int(rng.integers(0, 40))}:
+                reqs.append(f"win {a} {b} {c} {m.numerator}/{m.denominator} {n_warm} 3 1")
+                metas.append(("win", (a, b, c, m), n_warm, 3, True))
     model = common.run_driver("C16", reqs)
     adapting_of = {}
     for req, meta, mline in zip(reqs, metas, model, strict=True):
@@ -253,7 +273,10 @@ def run(ctx: common.Ctx):
     # rejected settings must be rejected (termination precondition), not hang
     import mici
 
-    for bad in [(0, 75, 50, 2.0), (25, 75, 50, 0.5)]:
+    bad_settings = [(0, 75, 50, 2.0), (25, 75, 50, 0.5)]
+    if src_broken:
+        bad_settings += [(-3, 75, 50, 2.0), (25, 75, 50, 0.0), (25, 75, 50, 0.999), (0, 0, 0, 1.0), (1, 0, 0, -2.0)]
+    for bad in bad_settings:
         try:
             stg = _with_timeout(lambda b=bad: mici.stagers.WindowedWarmUpStager(*b))
             try:
@@ -267,6 +290,19 @@ def run(ctx: common.Ctx):
                 )
         except ValueError:
             ctx.count("invalid_setting_rejected")
+        except _Timeout:
+            ctx.violation(
+                "WindowedWarmUpStager window<1 or multiplier<1",
+                f"constructor never returns for settings {bad}",
+                {"settings": list(bad)},
+            )
+        except Exception as e:  # noqa: BLE001
+            # an inadmissible setting was accepted and the window loop fails in an uncontrolled way
+            ctx.violation(
+                "WindowedWarmUpStager window<1 or multiplier<1",
+                f"settings {bad} are accepted and stages() raises {type(e).__name__}: {e}",
+                {"settings": list(bad)},
+            )
     # ---- real runs -------------------------------------------------------------------
     runs = []
     for _ in range(ctx.n(40, 400)):
@@ -417,6 +453,8 @@ def replay(ctx, obj):
             return True
         except ValueError:
             return False
+        except Exception:  # noqa: BLE001
+            return True
         return False
     # real-run replays: re-run the whole check section
     sub = common.Ctx(ctx.prop, ctx.tier, ctx.seed)
@@ -440,3 +478,12 @@ LEVEL_NOTE = (
     "harness. Not modelled: progress bars, multiprocess execution of a stage (C14)."
 )
 TECHNIQUE = "Lean 4 theorems (induction over the window loop and the stage list) + exhaustive model/implementation stage-table comparison"
+
+# --- source translator tie (tools/extractors/pysrc.py, Props/C16S.lean) ---
+LEVEL_TEXT += (
+    " SOURCE TIE (Props/C16S.lean): on every run tools/extractors/pysrc.py translates WarmUpStager.stages, WindowedWarmUpStager.__init__ (validation) and WindowedWarmUpStager.stages (the three sizes incl. int(0.15 n), int(0.1 n), the while loop as a fuel-recursive function, order / lengths / kinds / trace and statistics flags of the emitted stages) into Lean over Nat/Rat; src_warmUp_stages_eq_model, src_windows_eq_model (induction over the fuel), src_init_eq_model, src_windowed_stages_eq_model prove generated = model; src_init_validates shows every stager accepted by __init__ satisfies the termination preconditions; src_windows_sum, src_windowed_warm_sum, src_warmUp_warm_sum, src_main_last, src_windowed_shape restate the stager theorems for the generated definitions. The sampler's stage loop (samplers.py) is not translated."
+)
+LEVEL_NOTE += (
+    ' Translator conventions (trusted, validated by the stage-table correspondence): Python ints are Nat (truncated subtraction), float settings Rat, decimal float literals the rationals they denote (0.15 = 3/20), int() = floor, the stage dictionary = list of its values in insertion order (labels checked pairwise different), adapters= abstracted to fast/slow/main after checking the defining comprehension of fast_adapters, fuel of the loop = bound + 1. A broken src_* obligation escalates the stage-table search (tripled range, boundary configurations, more invalid settings).'
+)
+TECHNIQUE += ' + source-to-Lean translation of stagers.py with generated = model equalities re-proved on every run'
